@@ -229,7 +229,7 @@ fn sweep_reference(k: u32, plan: &SourceBlockEncodingPlan, structured: bool) -> 
 }
 
 pub fn sweep_ts(quick: bool) -> Vec<u16> {
-    let dense_to: u16 = if quick { 2100 } else { 65535 };
+    let dense_to: u16 = if quick { 16600 } else { 65535 };
     let mut v: Vec<u16> = (161..=dense_to).collect();
     if quick {
         for p in [4096u32, 8192, 16384, 32768, 49152, 65536] {
@@ -357,7 +357,7 @@ pub fn run(ctx: &Ctx) -> i32 {
     st.sample(json!({"kernel":"avx2","K":26,"T":67,"mode":"plan","relations":["byte j of each of the 38 packets = 1-byte packet of column j, j=0..66, data pos and lcg","Enc(A^B)=Enc(A)^Enc(B) for 6 pairs","Enc(c*A)=c*Enc(A) for all 256 c","decode with symbols {0,13} erased"]}));
     finish(ctx, &st, Finish {
         level: "exploration",
-        rule: format!("grid: kernel family in {:?} (forced through the public dispatchers) x K in {:?} x every T in 1..={} and {{255,256,257,1023,1024,1280{}}} x encoder built via cache / explicit plan / unplanned; ESIs: all source, 8 near repair, 4 far repair. For every point: (i) byte j of every packet equals the 1-byte packet obtained by encoding byte column j alone, for every j (data pos and lcg), (ii) additivity for all pairs of {{pos,lcg,unit0,ff}}, (iii) homogeneity for all 256 scalars (T<=70 and T around 128/192/256; 6 scalars elsewhere) with reference GF multiplication, (iv) decoding with two source symbols erased returns the data. (v) T sweep (kernel auto and portable{}): K=10{} x every T in 161..={} plus powers of two +-{{0,1,2,100}} up to 65535, one encode per T of a block whose byte columns carry 7 fixed patterns in an aperiodic arrangement: every byte of every packet must equal the 1-byte packet of its column's pattern, and decoding with two erasures returns the data; the same with structured symbols (each symbol one 8-byte word repeated: zero, constant and periodic symbols) for every T<=400 and every multiple of 8. distinct_nontrivial = (kernel,K,T,mode) points.", kinds.iter().map(|&k| kind_name(k)).collect::<Vec<_>>(), ks, if ctx.quick() { 160 } else { 192 }, if ctx.quick() { "" } else { ",65535" }, if ctx.quick() { "" } else { "; all forced kernels on a reduced T set" }, if ctx.quick() { "" } else { " and 26" }, if ctx.quick() { 2100 } else { 65535 }),
+        rule: format!("grid: kernel family in {:?} (forced through the public dispatchers) x K in {:?} x every T in 1..={} and {{255,256,257,1023,1024,1280{}}} x encoder built via cache / explicit plan / unplanned; ESIs: all source, 8 near repair, 4 far repair. For every point: (i) byte j of every packet equals the 1-byte packet obtained by encoding byte column j alone, for every j (data pos and lcg), (ii) additivity for all pairs of {{pos,lcg,unit0,ff}}, (iii) homogeneity for all 256 scalars (T<=70 and T around 128/192/256; 6 scalars elsewhere) with reference GF multiplication, (iv) decoding with two source symbols erased returns the data. (v) T sweep (kernel auto and portable{}): K=10{} x every T in 161..={} plus powers of two +-{{0,1,2,100}} up to 65535, one encode per T of a block whose byte columns carry 7 fixed patterns in an aperiodic arrangement: every byte of every packet must equal the 1-byte packet of its column's pattern, and decoding with two erasures returns the data; the same with structured symbols (each symbol one 8-byte word repeated: zero, constant and periodic symbols) for every T<=400 and every multiple of 8. distinct_nontrivial = (kernel,K,T,mode) points.", kinds.iter().map(|&k| kind_name(k)).collect::<Vec<_>>(), ks, if ctx.quick() { 160 } else { 192 }, if ctx.quick() { "" } else { ",65535" }, if ctx.quick() { "" } else { "; all forced kernels on a reduced T set" }, if ctx.quick() { "" } else { " and 26" }, if ctx.quick() { 16600 } else { 65535 }),
         exhaustive: false,
         assumptions: vec!["T outside the alphabet (193..65534 except the listed ones) is not enumerated".into(), "NEON cannot execute on this host".into()],
         extra: Map::new(),
